@@ -138,6 +138,17 @@ Section Proofs.
   Definition present (doc : list (pystr * pyval)) (fd : tfd) : list (pystr * pyval) :=
     match alist_get doc (f_name fd) with Some v => [(f_name fd, v)] | None => [] end.
 
+  (* a value its __set__ chain stores unchanged is not the empty list / dict NoneField turns into None *)
+  Lemma reg_leaf_prim_normal f v :
+    vset re_match [] f v = Ok v -> reg_leaf re_match sdeser (LPrim f) v = Ok v.
+  Proof.
+    intro H. destruct f; cbn [reg_leaf]; try exact H.
+    destruct (empty_container v) eqn:E; [|exact H].
+    destruct v as [| | | |l| | | |kv| | |]; try discriminate E.
+    - destruct l; [|discriminate E]. vm_compute in H. discriminate H.
+    - destruct kv; [|discriminate E]. vm_compute in H. discriminate H.
+  Qed.
+
   Lemma collect_flat dc dc0 c kv doc : forall fs,
       (forall fd, In fd fs -> flat_field c kv doc fd) ->
       collect_reg (reg_store re_match sdeser ostore dc dc0) [] c kv fs = Ok (flat_map (present doc) fs).
@@ -149,7 +160,7 @@ Section Proofs.
       (match alist_get doc (f_name fd) with Some v => [(f_name fd, v)] | None => [] end).
     rewrite Hl.
     destruct (alist_get doc (f_name fd)) as [v|] eqn:E; [|reflexivity].
-    rewrite Hty. cbn [reg_store reg_leaf]. rewrite (Hv v eq_refl). cbn [bind].
+    rewrite Hty. cbn [reg_store]. rewrite (reg_leaf_prim_normal f v (Hv v eq_refl)). cbn [bind].
     rewrite (lookup_reg_not_none [] c kv (f_name fd) v Hl).
     reflexivity.
   Qed.
@@ -194,7 +205,10 @@ Section Proofs.
     rewrite (collect_flat _ _ c kv doc (t_fields c) Hflat) in H. cbn [bind] in H.
     unfold defaults_for in H. rewrite (defaults_flat c kv doc _ (t_fields c) Hflat) in H.
     cbn [app] in H.
-    rewrite Hren. rewrite (enum_targets_flat c kv doc (t_fields c) Hflat). cbn [bind apply_enums].
+    assert (Hflat' : forall fd, In fd (enum_order (t_fields c)) -> flat_field c kv doc fd).
+    { intros fd Hin. apply Hflat. unfold enum_order in Hin. apply in_app_or in Hin.
+      destruct Hin as [Hin|Hin]; apply filter_In in Hin; exact (proj1 Hin). }
+    rewrite Hren. rewrite (enum_targets_flat c kv doc (enum_order (t_fields c)) Hflat'). cbn [bind apply_enums].
     unfold from_trusted_map. rewrite (find_tclass_name e cn c Hc).
     destruct (negb (forallb (fun r => alist_has (flat_map (present doc) (t_fields c)) r) (t_required c)));
       [discriminate|].
